@@ -1,6 +1,9 @@
-import AM.Model.Sshd
-/-! `amdriver <mode>`: runs the executable model on cases read from stdin, one per line, and
-prints one canonical observation per case (same line protocol as the Go harness). -/
+import AM.Spec.Sshd
+import AM.Model.Syslog
+import AM.Proto
+/-! `amdriver <mode> [property]`: runs the executable model on cases read from stdin, one per line,
+prints the model's canonical observation, the verdict of the property's executable `Spec` on it
+and — when the case carries the implementation's observation (`obs=`) — the verdict on that. -/
 open AM
 
 def sshdCfg : Sshd.Cfg := ⟨strOf "node-1", strOf "0123456789abcdef0123456789abcdef"⟩
@@ -15,12 +18,86 @@ def renderOut (o : Sshd.Out) : String :=
 
 def handoffOf (s : String) : Sshd.Handoff := if s == "cancel" then .cancel else .ready
 
-def sshdLine (f : List String) : String :=
+/-- trailing `key=value` fields -/
+def kv (fs : List String) (k : String) : Option String :=
+  fs.findSome? fun f => if f.startsWith (k ++ "=") then some ((f.drop (k.length + 1)).toString) else none
+
+def verdict : Option String → String
+  | none => "ok"
+  | some c => "FAIL:" ++ c
+
+def parseForm (x : String) : Option (Spec.Form × List Str) :=
+  match x.splitOn ":" with
+  | [f, fields] => do
+    let form ← Spec.Form.ofString f
+    let fs ← (if fields == "" then some [] else (fields.splitOn ",").mapM ofHex)
+    pure (form, fs)
+  | _ => none
+
+/-- the spec of a property of the sshd family on one observation -/
+def sshdSpec (prop : String) (pid line : Str) (ok : Bool) (h : Sshd.Handoff)
+    (form : Option (Spec.Form × List Str)) (o : Sshd.Out) : Option String :=
+  match prop with
+  | "C11" => Spec.specC11 sshdCfg pid line ok o
+  | "C19" => Spec.specC19 line o
+  | "C05" =>
+    match Spec.specC05 pid ok h o with
+    | some c => some c
+    | none =>
+      match form with
+      | some (f, fs) =>
+        if f.accepted && Spec.inDomain f fs && (match atoi pid with | some n => n > 0 | none => false)
+        then Spec.specForm sshdCfg pid f fs ok h o else none
+      | none => none
+  | "C06" | "C17" =>
+    match form with
+    | some (f, fs) =>
+      -- the theorem's domain; outside it no claim is made (DESIGN C06, "observation outside the domain")
+      if Spec.inDomain f fs && Spec.lineOf f fs == some line && (!f.accepted || (atoi pid).isSome)
+      then Spec.specForm sshdCfg pid f fs ok h o else none
+    | none => some "case-without-form"
+  | _ => none
+
+def sshdLine (prop : String) (f : List String) : String :=
   match f with
-  | id :: pid :: line :: ok :: h :: _ =>
+  | id :: pid :: line :: ok :: h :: rest =>
     match ofHex pid, ofHex line with
-    | some p, some l => s!"{id} {renderOut (Sshd.process sshdCfg p l (ok == "ok") (handoffOf h))}"
+    | some p, some l =>
+      let okb := ok == "ok"
+      let hh := handoffOf h
+      let form := (kv rest "form").bind parseForm
+      let o := Sshd.process sshdCfg p l okb hh
+      let sp := sshdSpec prop p l okb hh form o
+      let isp := match kv rest "obs" with
+        | none => "-"
+        | some x => match Proto.parseOut x with
+          | none => "FAIL:unparsable-observation"
+          | some io => verdict (sshdSpec prop p l okb hh form io)
+      let dom := match form with
+        | some (fm, fs) => if Spec.inDomain fm fs && Spec.lineOf fm fs == some l then "1" else "0"
+        | none => "-"
+      let nt := if (Spec.writes o).isEmpty then "0" else "1"
+      s!"{id} {renderOut o} spec={verdict sp} ispec={isp} dom={dom} nt={nt}"
     | _, _ => s!"{id} !badhex"
+  | _ => "!badline"
+
+/-- C07: `<id> <pidhex> <padhex> <msghex> <ok|fail> <ready|cancel> [obs=<framed impl obs> dobs=<direct impl obs>]` -/
+def c07Line (f : List String) : String :=
+  match f with
+  | id :: pid :: pad :: msg :: ok :: h :: rest =>
+    match ofHex pid, ofHex pad, ofHex msg with
+    | some p, some pd, some m =>
+      let okb := ok == "ok"
+      let hh := handoffOf h
+      let direct := Sshd.process sshdCfg p m okb hh
+      let framed := Syslog.process sshdCfg (p ++ pd ++ m ++ ['\n']) okb hh
+      let sp := if framed = direct then none else some "framed-differs-from-direct"
+      let isp := match kv rest "obs", kv rest "dobs" with
+        | some a, some b => if a == b then "ok" else "FAIL:framed-differs-from-direct"
+        | _, _ => "-"
+      let nt := if (Spec.writes direct).isEmpty then "0" else "1"
+      s!"{id} {renderOut framed} spec={verdict sp} ispec={isp} dom=- nt={nt}"
+    | _, _, _ => s!"{id} !badhex"
   | _ => "!badline"
 
 partial def loop (h : IO.FS.Stream) (out : IO.FS.Stream) (f : List String → String) : IO Unit := do
@@ -34,5 +111,6 @@ def main (args : List String) : IO UInt32 := do
   let stdin ← IO.getStdin
   let stdout ← IO.getStdout
   match args with
-  | ["sshd"] => loop stdin stdout sshdLine; return 0
-  | _ => IO.eprintln "usage: amdriver <mode>"; return 2
+  | ["sshd", prop] => loop stdin stdout (sshdLine prop); return 0
+  | ["c07"] => loop stdin stdout c07Line; return 0
+  | _ => IO.eprintln "usage: amdriver <mode> [property]"; return 2
